@@ -1,12 +1,15 @@
 #!/bin/sh
-# usage: try_seed.sh <patch.diff> <tier> <property>...   applies the patch to /repo, runs the checks, reverts.
+# usage: try_seed.sh <patch.diff> <tier> <property>...
+# Applies the patch to a scratch worktree of /repo (so that checks running elsewhere
+# against /repo are not disturbed), runs the checks against it (VERIF_REPO), removes it.
 patch="$1"; tier="$2"; shift 2
-cd /repo || exit 2
-if ! git diff --quiet; then echo "repo dirty"; exit 2; fi
-git apply "$patch" || { echo "patch does not apply"; exit 2; }
+wt=$(mktemp -d /tmp/seedrepo_XXXXXX)
+rmdir "$wt"
+git -C /repo worktree add --detach "$wt" HEAD >/dev/null 2>&1 || { echo "cannot create worktree"; exit 2; }
+( cd "$wt" && git apply "$patch" ) || { echo "patch does not apply"; git -C /repo worktree remove --force "$wt"; exit 2; }
 cd /verif
 for p in "$@"; do
-  ./check "$p" "$tier" > /tmp/try_seed_$p.log 2>&1; rc=$?
+  VERIF_REPO="$wt" ./check "$p" "$tier" > /tmp/try_seed_$p.log 2>&1; rc=$?
   echo "== $p $tier rc=$rc"; grep -c "^VIOLATION" /tmp/try_seed_$p.log; grep "^VIOLATION\|^  site\|^INFRA\|^KNOWN" /tmp/try_seed_$p.log | cut -c1-260 | head -8
 done
-git -C /repo checkout -- . ; git -C /repo status --short | head -3
+git -C /repo worktree remove --force "$wt"; git -C /repo worktree prune
